@@ -360,7 +360,7 @@ func observeWal(cases string, ow *bufio.Writer, root string) error {
 			if dirNops[fs[1]] >= 0 {
 				fmt.Fprintf(ow, "D %s %s\n", fs[1], dirDigest(dirs[fs[1]]))
 			}
-		case "READ":
+		case "READ", "K":
 			line, err := observeDir(root, dirs[fs[2]], unhx(fs[3]), unhx(fs[4]))
 			if err != nil {
 				return err
